@@ -584,7 +584,7 @@ Proof.
   pose proof (chunk_loop_is_scan St proc p cb0
                (S (N.to_nat (N.min (to_read / chunkN) (len region / chunkN + 1)))) (N.to_nat chunkN)
                region start (stop - start) pf RN acc) as CL.
-  cbn [held_slots concat] in CL. rewrite N2Nat.id, <- TR in CL.
+  cbn [held_slots concat base] in CL. rewrite N2Nat.id, <- TR in CL.
   rewrite CL; clear CL.
   2:{ lia. }
   2:{ replace L with (N.to_nat (N.of_nat L)) by lia. rewrite <- N2Nat.inj_mod by lia. rewrite CM. reflexivity. }
